@@ -86,12 +86,21 @@ type isoImage struct {
 }
 
 func buildISO(t *treeSpec, opts iso9660.FinalizeOptions, blocksize, start int64) (img *isoImage, err error) {
+	return buildISOWith(t, opts, blocksize, start, false)
+}
+
+// buildISOWith optionally arms the range monitor with [start, start+size); with the monitor armed the image is
+// returned even when Finalize fails, so that the writes it issued can be inspected.
+func buildISOWith(t *treeSpec, opts iso9660.FinalizeOptions, blocksize, start int64, monitor bool) (img *isoImage, err error) {
 	var content int64
 	for _, b := range t.Files {
 		content += int64(len(b)) + 2*blocksize
 	}
 	size := int64(2<<20) + 2*content + int64(len(t.Dirs)+len(t.Files))*4*blocksize
 	d := memdev.New(start + size + 64<<10)
+	if monitor {
+		d.Allowed = []memdev.Range{{Lo: start, Hi: start + size}}
+	}
 	var fs *iso9660.FileSystem
 	if pm := guard(func() {
 		fs, err = iso9660.Create(be(d, false), size, start, blocksize, "")
@@ -106,10 +115,10 @@ func buildISO(t *treeSpec, opts iso9660.FinalizeOptions, blocksize, start int64)
 	}); pm != "" {
 		return nil, fmt.Errorf("%s", pm)
 	}
-	if err != nil {
+	if err != nil && !monitor {
 		return nil, err
 	}
-	return &isoImage{d, size, start, blocksize}, nil
+	return &isoImage{d, size, start, blocksize}, err
 }
 
 func (i *isoImage) open(ro bool) (filesystem.FileSystem, error) {
@@ -124,12 +133,19 @@ type sqImage struct {
 }
 
 func buildSquash(t *treeSpec, opts squashfs.FinalizeOptions, blocksize, start int64) (img *sqImage, err error) {
+	return buildSquashWith(t, opts, blocksize, start, false)
+}
+
+func buildSquashWith(t *treeSpec, opts squashfs.FinalizeOptions, blocksize, start int64, monitor bool) (img *sqImage, err error) {
 	var content int64
 	for _, b := range t.Files {
 		content += int64(len(b))
 	}
 	size := int64(1<<20) + 2*content + int64(len(t.Dirs)+len(t.Files)+len(t.Links))*512
 	d := memdev.New(start + size + 64<<10)
+	if monitor {
+		d.Allowed = []memdev.Range{{Lo: start, Hi: start + size}}
+	}
 	var fs *squashfs.FileSystem
 	if pm := guard(func() {
 		fs, err = squashfs.Create(be(d, false), size, start, blocksize)
@@ -144,10 +160,10 @@ func buildSquash(t *treeSpec, opts squashfs.FinalizeOptions, blocksize, start in
 	}); pm != "" {
 		return nil, fmt.Errorf("%s", pm)
 	}
-	if err != nil {
+	if err != nil && !monitor {
 		return nil, err
 	}
-	return &sqImage{d, size, start, blocksize}, nil
+	return &sqImage{d, size, start, blocksize}, err
 }
 
 func (i *sqImage) open(ro bool) (*squashfs.FileSystem, error) {
